@@ -20,7 +20,10 @@
    labelled atomic store per step; that the Go code uses sync/atomic for exactly
    these accesses, and plain accesses only under the bucket lock or on the
    unpublished table, is checked on the source by the access inventory
-   (harness/inventory), and at run time by the Go race detector (native/race). *)
+   (harness/inventory), and at run time by the Go race detector (native/race).
+   Map variant (map.go, XMachineS): props/C03.v -- C03_write_ownership (a step changes the
+   key / value pointers of a bucket or any bit of its words above the lock bit only if the
+   stepping thread holds that bucket's lock, or the table is its own unpublished one). *)
 From CacheV Require Import Base SpecMap XMachine.
 From CacheV.proofs Require Import X_basic X_inv X_c13 X_c16 X_own.
 From Coq Require Import NArith.
